@@ -3,6 +3,7 @@
 import logging
 from copy import copy, deepcopy
 from functools import partial
+from math import inf
 from types import ModuleType
 from typing import TYPE_CHECKING, Dict, Iterable, List, Optional, Tuple, Union
 from warnings import warn
@@ -116,8 +117,20 @@ class Model(Object):
         # the solver interfaces do not carry all their tolerances over
         if getattr(self, "_tolerance", None) is not None and hasattr(self, "_solver"):
             self.tolerance = self._tolerance
+        if hasattr(self, "_solver"):
+            self._refresh_infinite_bounds()
         if not hasattr(self, "name"):
             self.name = None
+
+    def _refresh_infinite_bounds(self) -> None:
+        """Write infinite flux bounds to the solver variables again.
+
+        A solver rebuilt from its serialized form reports the largest float for
+        a missing bound; cloned into another interface that becomes a real bound.
+        """
+        for reaction in self.reactions:
+            if reaction._lower_bound == -inf or reaction._upper_bound == inf:
+                reaction.update_variable_bounds()
 
     def __getstate__(self) -> Dict:
         """Get state for serialization.
@@ -487,6 +500,7 @@ class Model(Object):
         # the solver interfaces do not carry all their tolerances over
         if self._tolerance is not None:
             new.tolerance = self._tolerance
+        new._refresh_infinite_bounds()
 
         # it doesn't make sense to retain the context of a copied model so
         # assign a new empty context
